@@ -328,7 +328,16 @@ func (p *PkgCtx) isOpaqueElem(t types.Type) bool {
 // State
 // ---------------------------------------------------------------------------
 
+// callLog: ghost record of the results of all calls to one callee on this path
+// (call k returned Arrs[j][k] as its j-th scalar result component).
+type callLog struct {
+	Arrs  []Term
+	Types []types.Type
+	Cnt   Term
+}
+
 type State struct {
+	logs map[string]callLog
 	c    *VCtx
 	symObjs map[string]ObjID // lazily materialised pointees of unknown pointers
 	objs map[ObjID]Val
@@ -349,6 +358,10 @@ func (s *State) clone() *State {
 	for k, v := range s.symObjs {
 		n.symObjs[k] = v
 	}
+	n.logs = make(map[string]callLog, len(s.logs))
+	for k, v := range s.logs {
+		n.logs[k] = v
+	}
 	n.pc = append([]Term(nil), s.pc...)
 	return n
 }
@@ -361,6 +374,10 @@ func (s *State) snapshot() *State {
 	}
 	for k, v := range s.symObjs {
 		n.symObjs[k] = v
+	}
+	n.logs = make(map[string]callLog, len(s.logs))
+	for k, v := range s.logs {
+		n.logs[k] = v
 	}
 	return n
 }
